@@ -60,6 +60,11 @@ type c22World struct {
 	lastState string // previous broadcast cluster state (RESIZING or not)
 	lastCode  int32  // 0 none yet, 1 not RESIZING, 2 RESIZING (atomic)
 	sendFailedJob int64 // id of the job whose instruction distribution failed (atomic; 0 none)
+	seenJobs map[int64]bool // every job id ever observed in the coordinator's table or in an instruction
+	seenLock int32          // spin lock for seenJobs (the status deliveries run in plain goroutines)
+	reported map[string]bool // nodes whose (first) completion has been handed to the coordinator
+	startMembers string
+	earlyMember  string // non-empty: the member list changed before an instruction holder reported
 	endedAtEnter int // number of ended jobs when RESIZING was entered
 	handlerErr []string
 	nextID   int32
@@ -85,16 +90,26 @@ func (w *c22World) sawStatus(cs *ClusterStatus) {
 		return
 	}
 	w.lastState = map[int32]string{0: "", 1: "not-RESIZING", 2: ClusterStateResizing}[old]
+	// A job has ended when the coordinator recorded DONE / ABORTED for it, when its instruction
+	// distribution failed, or when it was known (it distributed instructions) and the coordinator no
+	// longer keeps it at all (an implementation may drop finished jobs from its table).
 	ended, running := 0, 0
 	failed := atomic.LoadInt64(&w.sendFailedJob)
-	for id, j := range w.c.jobs {
+	for !atomic.CompareAndSwapInt32(&w.seenLock, 0, 1) {
+	}
+	for id := range w.c.jobs {
+		w.seenJobs[id] = true
+	}
+	for id := range w.seenJobs {
+		j := w.c.jobs[id]
 		switch {
-		case j.state == resizeJobStateDone || j.state == resizeJobStateAborted || (failed != 0 && id == failed):
+		case j == nil || j.state == resizeJobStateDone || j.state == resizeJobStateAborted || (failed != 0 && id == failed):
 			ended++
 		case j.state == resizeJobStateRunning:
 			running++
 		}
 	}
+	atomic.StoreInt32(&w.seenLock, 0)
 	switch {
 	case cs.State == ClusterStateResizing && w.lastState != ClusterStateResizing:
 		w.endedAtEnter = ended
@@ -130,6 +145,10 @@ func (w *c22World) SendTo(n *Node, m Message) error {
 		}
 	}
 	w.instr[n.ID] = in
+	for !atomic.CompareAndSwapInt32(&w.seenLock, 0, 1) {
+	}
+	w.seenJobs[in.JobID] = true
+	atomic.StoreInt32(&w.seenLock, 0)
 	if w.instrJ[in.JobID] == nil {
 		w.instrJ[in.JobID] = map[string]bool{}
 	}
@@ -153,6 +172,15 @@ func (w *c22World) SendTo(n *Node, m Message) error {
 }
 
 func (w *c22World) complete(jobID int64, node *Node, errText string) {
+	// "the member list changes only AFTER every node of the target membership has reported success":
+	// while a holder of this job's instructions is only now about to report, the member list must still
+	// be the one the job started from (single-job scenarios; with two joins job 1 legitimately changes it)
+	if !w.sc.second && !w.reported[node.ID] && w.earlyMember == "" {
+		if m := c22Members(w.c); m != w.startMembers {
+			w.earlyMember = fmt.Sprintf("members are already %s (started from %s) while %s has not reported for job %d yet", m, w.startMembers, node.ID, jobID)
+		}
+	}
+	w.reported[node.ID] = true
 	err := w.c.markResizeInstructionComplete(&ResizeInstructionComplete{JobID: jobID, Node: node, Error: errText})
 	if err == nil && errText == "" {
 		w.okFrom[node.ID] = true
@@ -187,6 +215,28 @@ func c22Build(sc c22Scenario, x *vsched.X) *c22World {
 			panic(err)
 		}
 	}
+	// a second index, alphabetically LAST, whose only shard is one the joining / leaving node C (ring
+	// position 2) neither gains nor loses (partition % 3 == 0 with the mod hasher): the resize plan is
+	// built index by index, and a node can have work for one index and none for the next
+	{
+		probe := newCluster()
+		zi, err := h.CreateIndex("z", IndexOptions{})
+		if err != nil {
+			panic(err)
+		}
+		zf, err := zi.CreateField("f", OptFieldTypeDefault())
+		if err != nil {
+			panic(err)
+		}
+		for s := uint64(0); s < 64; s++ {
+			if probe.partition("z", s)%3 == 0 {
+				if _, err := zf.SetBit(1, s*ShardWidth+1, nil); err != nil {
+					panic(err)
+				}
+				break
+			}
+		}
+	}
 	c := newCluster()
 	c.ReplicaN = sc.replicaN
 	c.Hasher = c22ModHasher{}
@@ -194,7 +244,7 @@ func c22Build(sc c22Scenario, x *vsched.X) *c22World {
 	c.Topology = newTopology()
 	c.holder = h
 	w := &c22World{sc: sc, x: x, c: c, h: h, instr: map[string]*ResizeInstruction{}, okFrom: map[string]bool{},
-		instrJ: map[int64]map[string]bool{}, okJ: map[int64]map[string]bool{}}
+		instrJ: map[int64]map[string]bool{}, okJ: map[int64]map[string]bool{}, seenJobs: map[int64]bool{}, reported: map[string]bool{}}
 	c.broadcaster = w
 	for _, id := range []string{"A", "B"} {
 		n := c22Node(id)
@@ -213,6 +263,7 @@ func c22Build(sc c22Scenario, x *vsched.X) *c22World {
 	}
 	c.Node = c.nodes[0]
 	c.Coordinator = "A"
+	w.startMembers = c22Members(c)
 	c.SetState(ClusterStateNormal)
 	c.listenForJoins()
 	return w
@@ -376,6 +427,10 @@ func TestVerif_C22(t *testing.T) {
 				end := fmt.Sprintf("members=%s state=%s currentJob=%v running=%d okFrom=%v", members, cl.state, cl.currentJob != nil, running, c22Keys(w.okFrom))
 				c.Outcome(end)
 				c.Distinct(name + "|" + end)
+				if w.earlyMember != "" {
+					c.Violate("membership-changed-before-all-success "+key, cs, w.earlyMember+" ; "+end, "the member list changes only after every instruction holder has reported success")
+					return false
+				}
 				if w.earlyLeft != "" {
 					c.Violate("left-RESIZING-while-job-active "+key, cs, w.earlyLeft+" ; "+end, "the cluster is RESIZING from the moment the membership change is accepted until the job ends")
 					return false
@@ -410,8 +465,28 @@ func TestVerif_C22(t *testing.T) {
 						}
 					}
 				}
-				if members != start && doneJobs == 0 {
-					c.Violate("membership-changed-without-completed-job "+key, cs, end, "member list unchanged")
+				// ... and, independently of how long the coordinator keeps finished jobs in its table: every
+				// change of the member list needs a job ALL of whose instruction holders reported success
+				// (a job that never had to send an instruction counts as such)
+				changes := 0
+				for _, id := range []string{"A", "B", "C", "D"} {
+					if strings.Contains(members, id) != strings.Contains(start, id) {
+						changes++
+					}
+				}
+				fully := 0
+				for id := range w.seenJobs {
+					ok := true
+					for n := range w.instrJ[id] {
+						ok = ok && w.okJ[id][n]
+					}
+					if ok {
+						fully++
+					}
+				}
+				_ = doneJobs
+				if changes > fully {
+					c.Violate("membership-changed-without-all-success "+key, cs, end+fmt.Sprintf(" %d membership change(s) but only %d job(s) whose instruction holders all reported success", changes, fully), "member list unchanged")
 					return false
 				}
 				if jobEnded && cl.state == ClusterStateResizing {
